@@ -19,6 +19,7 @@
 #include <unistd.h>
 #include <functional>
 #include <map>
+#include <type_traits>
 #include <rapidcheck.h>
 #include <set>
 #include <string>
@@ -74,9 +75,26 @@ struct Ctx {
 };
 
 // ---- generator helpers (size independent; shrink towards the first/lowest choice)
-template <class T> static inline T rng(T lo, T hi) // inclusive
+template <class T> static inline T rng(T lo, T hi) // inclusive; the full range of T is allowed
 {
-        return *rc::gen::resize(100, rc::gen::inRange<T>(lo, (T) (hi + 1)));
+        static_assert(std::is_integral<T>::value, "rng<T> needs an integral type");
+        if (sizeof(T) < 8) {
+                // do the arithmetic in 64 bits so that hi == max(T) does not wrap
+                long long l = (long long) lo, h = (long long) hi;
+                return (T) *rc::gen::resize(100, rc::gen::inRange<long long>(l, h + 1));
+        }
+        if (std::is_signed<T>::value) {
+                if ((long long) hi == INT64_MAX) {
+                        long long v = *rc::gen::resize(100, rc::gen::arbitrary<long long>());
+                        return (T) (v < (long long) lo ? (long long) lo : v);
+                }
+                return (T) *rc::gen::resize(100, rc::gen::inRange<long long>((long long) lo, (long long) hi + 1));
+        }
+        if ((unsigned long long) hi == UINT64_MAX) {
+                unsigned long long v = *rc::gen::resize(100, rc::gen::arbitrary<unsigned long long>());
+                return (T) (v < (unsigned long long) lo ? (unsigned long long) lo : v);
+        }
+        return (T) *rc::gen::resize(100, rc::gen::inRange<unsigned long long>((unsigned long long) lo, (unsigned long long) hi + 1));
 }
 static inline uint64_t rng64(uint64_t lo, uint64_t hi)
 {
@@ -231,7 +249,7 @@ template <class Case> int main_(int argc, char **argv, Prop<Case> &P)
                 }
                 if (fd >= 0) close(fd);
         }
-        uint64_t evals = 0;
+        uint64_t evals = 0, gen_calls = 0;
         std::set<uint64_t> nt;
         std::vector<std::string> samples;
         std::string fail_case, fail_msg, fail_key;
@@ -247,6 +265,7 @@ template <class Case> int main_(int argc, char **argv, Prop<Case> &P)
         md.description = P.id;
         auto result = rc::detail::checkTestable(
                 [&]() {
+                        gen_calls++;
                         Case c = P.gen(ctx);
                         if (crashbuf) {
                                 std::string js = P.to_json(c).dump();
@@ -281,6 +300,7 @@ template <class Case> int main_(int argc, char **argv, Prop<Case> &P)
         J r = J::obj();
         r.set("property", P.id).set("seed", (unsigned long long) seed).set("cases", cases).set("evaluations", (unsigned long long) evals);
         r.set("nontrivial_distinct", (unsigned long long) nt.size()).set("wall_s", wall);
+        r.set("generator_discards", (unsigned long long) (gen_calls - evals)); // generator invocations that did not reach the property body
         J lab = J::obj();
         for (auto &l : ctx.labels) lab.set(l.first, J((unsigned long long) l.second));
         r.set("labels", lab);
